@@ -307,7 +307,13 @@ func runCheck(prop, tier string, o opts) int {
 		if !deadline.IsZero() && deadline.Before(eo.Deadline) {
 			eo.Deadline = deadline
 		}
-		x := explore(w, e, eo)
+		eoH := eo
+		if e.Pkg.Pkg.Name() == "dag" {
+			// native runs of dag scenarios follow a recorded delivery order through
+			// gates with settle times (~0.1 s each): validate fewer of them
+			eoH.ConcordMax = eo.ConcordMax / 10
+		}
+		x := explore(w, e, eoH)
 		x.wall = time.Since(te).Seconds()
 		xs = append(xs, x)
 		fmt.Printf("[%s] %s: %d paths, %d decisions, ends %v, %d solver queries, %.1fs\n", prop, e.Name(), x.paths, x.transitions, sortedCounts(x.ends), x.queries, x.wall)
@@ -354,7 +360,7 @@ func runCheck(prop, tier string, o opts) int {
 		exp := map[int]*nativeExpect{}
 		for i, ps := range x.concord {
 			id := i + 1
-			cases = append(cases, nativeCase{ID: id, Entry: x.harness, Vars: ps.Model, Thorough: w.thorough})
+			cases = append(cases, nativeCase{ID: id, Entry: x.harness, Vars: ps.Model, Thorough: w.thorough, Sched: ps.Sched})
 			exp[id] = ps.Expect
 		}
 		res, err := runNative(bin, workDir, x.harness+"_conc", cases)
@@ -372,7 +378,7 @@ func runCheck(prop, tier string, o opts) int {
 				problems = append(problems, fmt.Sprintf("%s: concordance case %d: model does not satisfy the harness assumptions natively (model %v)", x.harness, c.ID, modelString(c.Vars)))
 				continue
 			}
-			diffs := compareNative(exp[c.ID], r)
+			diffs := compareNative(exp[c.ID], r, x.entry.Pkg.Pkg.Name() == "dag")
 			for _, d := range diffs {
 				if strings.HasPrefix(d, "ASSERT-FAILS-NATIVELY ") {
 					// a real counterexample found by native execution of a path model
@@ -398,7 +404,7 @@ func runCheck(prop, tier string, o opts) int {
 				continue
 			}
 			vlist = append(vlist, v)
-			vcases = append(vcases, nativeCase{ID: len(vlist), Entry: x.harness, Vars: v.Model, Thorough: w.thorough})
+			vcases = append(vcases, nativeCase{ID: len(vlist), Entry: x.harness, Vars: v.Model, Thorough: w.thorough, Sched: v.Sched})
 		}
 		vres, err := runNative(bin, workDir, x.harness+"_vio", vcases)
 		if err != nil {
@@ -432,7 +438,7 @@ func runCheck(prop, tier string, o opts) int {
 				reproduced = r.End == "hang"
 			}
 			if !reproduced {
-				problems = append(problems, fmt.Sprintf("%s: counterexample for %s does not reproduce natively (native end=%s) model %v", x.harness, v.AssertID, r.End, modelString(v.Model)))
+				problems = append(problems, fmt.Sprintf("%s: counterexample for %s does not reproduce natively (native end=%s) model %v decisions %s sched %v", x.harness, v.AssertID, r.End, modelString(v.Model), traceFull(v.Trace), v.Sched))
 				continue
 			}
 			isKnown := false
@@ -457,7 +463,7 @@ func runCheck(prop, tier string, o opts) int {
 			replayN++
 			rp := filepath.Join(o.verif, "work", "replays", fmt.Sprintf("%s_%s_%s_%d.json", prop, x.harness, sanitize(v.AssertID), replayN))
 			os.MkdirAll(filepath.Dir(rp), 0o755)
-			rf := replayFile{Property: prop, Harness: x.harness, Package: x.entry.Pkg.Pkg.Name(), Assert: v.AssertID, Kind: v.Kind, Vars: v.Model, Thorough: w.thorough, Detail: v.Detail, Source: v.Source, Readable: modelString(v.Model)}
+			rf := replayFile{Property: prop, Harness: x.harness, Package: x.entry.Pkg.Pkg.Name(), Assert: v.AssertID, Kind: v.Kind, Vars: v.Model, Thorough: w.thorough, Detail: v.Detail, Source: v.Source, Readable: modelString(v.Model), Sched: v.Sched}
 			data, _ := json.MarshalIndent(rf, "", " ")
 			os.WriteFile(rp, data, 0o644)
 			v.ReplayPath = rp
@@ -499,6 +505,17 @@ func runCheck(prop, tier string, o opts) int {
 		os.RemoveAll(workDir)
 	}
 	return code
+}
+
+func traceFull(t []decision) string {
+	var b strings.Builder
+	for i, d := range t {
+		if i > 0 {
+			b.WriteByte('.')
+		}
+		fmt.Fprintf(&b, "%d", d.Choice)
+	}
+	return b.String()
 }
 
 func sanitize(s string) string {
@@ -544,6 +561,7 @@ type replayFile struct {
 	Detail   string              `json:"detail,omitempty"`
 	Source   string              `json:"found_by"`
 	Readable string              `json:"inputs_readable"`
+	Sched    []int64             `json:"sched,omitempty"`
 }
 
 // runReplay re-runs a recorded counterexample against the real build.
@@ -574,7 +592,7 @@ func runReplay(path string, o opts) int {
 		fmt.Println(nb.err)
 		return 2
 	}
-	res, err := runNative(nb.bins[rf.Package], workDir, "replay", []nativeCase{{ID: 1, Entry: rf.Harness, Vars: rf.Vars, Thorough: rf.Thorough}})
+	res, err := runNative(nb.bins[rf.Package], workDir, "replay", []nativeCase{{ID: 1, Entry: rf.Harness, Vars: rf.Vars, Thorough: rf.Thorough, Sched: rf.Sched}})
 	if err != nil {
 		fmt.Println(err)
 		return 2
